@@ -12,6 +12,8 @@ import (
 	"fmt"
 	"os"
 	"path/filepath"
+	"runtime"
+	"runtime/debug"
 	"sort"
 	"unicode/utf8"
 
@@ -173,6 +175,7 @@ type Outcome struct {
 // Run executes f (the indexer) with panics caught and projects indexDir when f succeeded.
 func Run(indexDir string, table Table, f func() error) Outcome {
 	var err error
+	manualGC()
 	Progress("c15_phase.json", "indexing")
 	p := verifkit.Catch(func() { err = f() })
 	Progress("c15_phase.json", "projecting")
@@ -198,4 +201,20 @@ func Progress(name string, v any) {
 	}
 	b, _ := json.Marshal(v)
 	_ = os.WriteFile(filepath.Join(w, name), b, 0o644)
+}
+
+var runs int
+
+// Every index.Builder allocates two 16 MB posting tables; with the default GC policy the
+// runtime spends most of a scenario clearing and scanning them again.  The drivers collect
+// by hand every 40 runs instead (no effect on what the indexers compute).
+func manualGC() {
+	if runs == 0 {
+		debug.SetGCPercent(-1)
+	}
+	runs++
+	if runs%40 == 0 {
+		runtime.GC()
+		debug.FreeOSMemory()
+	}
 }
